@@ -87,6 +87,7 @@ impl<'a> Shrinker<'a> {
             reset!(accept_err);
             reset!(local_addr_err);
             reset!(peer_addr_err);
+            reset!(dup_err);
             reset!(read_errs);
             reset!(cuts);
             reset!(write_fault);
